@@ -91,7 +91,7 @@ def replay_native(case, inputs, label, props):
     """re-run the same sub-case concretely on the native build (unmodified /repo/ddo, Cost = isize).
     returns (reproduced: bool, detail)"""
     try:
-        if case.get("kind") == "par":
+        if case.get("kind") in ("par", "cacheconc", "domconc"):
             # schedules cannot be forced onto real threads: parallel counterexamples are replayed,
             # concretely (no solver, no symbolic values), on the scheduled build
             nat, _ = build.ensure_symx(sched=True)
